@@ -5,6 +5,7 @@ import (
 	"go/constant"
 	"go/types"
 	"strconv"
+	"strings"
 )
 
 // ---------- strings ----------
@@ -109,8 +110,12 @@ func (g *Gen) fr(e *Emitter, structT types.Type, field string, base Term) Term {
 		g.typeIDs[name] = id
 	}
 	k := name + "(" + base.S + ")"
-	if !g.frSeen[k] {
+	if !g.frSeen[k] && !strings.Contains(base.S, "!q") {
 		g.frSeen[k] = true
+		// facts about a closed term: asserted even while evaluating a quantifier body
+		q := e.quiet
+		e.quiet = 0
+		defer func() { e.quiet = q }()
 		e.assertRaw(and(
 			lt(t, intT(-2000000)),
 			eq(Term{fmt.Sprintf("(%s %s)", inv, t.S), SInt}, base),
